@@ -58,6 +58,9 @@ func runProm(c *PromCase) ([]byte, error) {
 }
 
 func checkProm(c *PromCase, body []byte) *Bad {
+	if b := rawUTF8("prom_"+c.Type, body); b != nil {
+		return b
+	}
 	p := "prom_" + c.Type
 	v := math.Float64frombits(c.VBits)
 	doc, err := parseOne(body)
